@@ -1,4 +1,4 @@
-import SecsModel.Model.Ctrl
+import SecsModel.Proofs.SMDefs
 import SecsModel.Proofs.SMFlat
 /-!
 # Proofs.SMGen — obligations over the three generated machines (`Gen.ConnSM`, `Gen.CommSM`, `Gen.CtrlSM`)
@@ -10,8 +10,6 @@ sequence the property prescribes.
 -/
 namespace SecsModel.Proofs.SMGen
 open SecsModel.Model.SM SecsModel.Gen SecsModel.Spec.SM SecsModel.Model.Gem.Ctrl SecsModel.Proofs.SMFlat
-
-def canon (m : MDef) (c : Nat) : St := { cur := c, active := canonFlags m c, log := [] }
 
 /-- all state names used by the table resolve to declared states -/
 def resolves (t : MachineTable) : Bool :=
@@ -65,9 +63,6 @@ theorem ctrl_noLeave (c : CState) (p : Option Probe) : ∀ s, handlers c p (.lea
   simp only [handlers, this, List.map_nil]
 
 theorem ctrl_flatH (c : CState) (p : Option Probe) : FlatH ctrl (handlers c p) := ⟨ctrl_flat, ctrl_noLeave c p⟩
-
-def probes : List (Option Probe) := [none, some .hostAnswers, some .hostSilent, some .hostAborts, some .notCommunicating]
-def inits : List String := ["EQUIPMENT_OFFLINE", "ATTEMPT_ONLINE", "HOST_OFFLINE", "ONLINE"]
 
 /-- the leaf the forwarders lead to from `dst` (what "moves to its destination" means for CONTROL/OFFLINE/ONLINE/ATTEMPT_ONLINE) -/
 def settle (c : CState) (p : Option Probe) : Nat → Nat → Nat
